@@ -61,6 +61,15 @@ func genC09(seed uint64, tier string) *plan.Plan {
 		pl.Cfg["refresh"] = 600
 	}
 	pl.Cfg["domain"] = int64(r.Uint32())
+	if r.IntN(12) == 0 {
+		// an exporter that writes JSON documents: sets with one invalid record among valid ones
+		if pl.Cfg["proto"] == 0 {
+			pl.Cfg["check_ms"] = 1000
+		}
+		pl.Cfg["json_bad"] = 1
+		genC14JSON(r, pl)
+		return pl
+	}
 	// slot 0: sizing template (one variable string + a few small fixed)
 	// slot 1: template with an ipv4Address element; slot 2: template with a fixed-length octet array
 	pick := func(xs []int64) int64 { return xs[r.IntN(len(xs))] }
@@ -193,6 +202,10 @@ func genC09(seed uint64, tier string) *plan.Plan {
 }
 
 func runC09(pl *plan.Plan, out *plan.Outcome) {
+	if cfgOr(pl, "json", 0) == 1 {
+		runC14JSON(pl, out) // the JSON exporter: invalid sets among valid ones (see c14json.go)
+		return
+	}
 	env := newEnv(pl, out, keepLogFlag)
 	var sess *expSession
 	env.Go("app", func() {
